@@ -14,7 +14,7 @@ from .. import common as C
 from .. import clauses as K
 
 PID = "C11"
-INV = ["ClauseOrthogonal", "ClausesCombine", "NoForeignKeys", "ClauseMode", "Placement"]
+INV = ["ClauseOrthogonal", "ClausesCombine", "NoForeignKeys", "ClauseMode", "Placement", "ModeFields"]
 BASE_KEYS = {"table_name", "schema", "primary_key", "columns", "alter", "checks", "index", "partitioned_by", "tablespace", "table_properties",
              "constraints", "dataset"}
 
